@@ -271,6 +271,13 @@ impl RecvWindow {
                 // New SDU; skip 0-length ones as they do not contain Matter messages
                 sdu_len_prefix = Some(msg_len);
             }
+        } else if rem_msg_len == 0 && !hdr.is_standalone_ack() {
+            // Not a BEGINNING segment and not a stand-alone ACK, so a CONTINUE and / or ENDING
+            // segment - but there is no SDU in progress which it could continue or end.
+            // (With an empty payload it would pass all the length checks below, take a
+            // sequence number and a window slot, and deliver nothing.)
+            warn!("RX data integrity failure: CONTINUE / ENDING segment without an SDU in progress");
+            Err(ErrorCode::InvalidData)?;
         }
 
         if (rem_msg_len as usize) < payload.len() {
